@@ -44,6 +44,15 @@ CHECKS = {
  "C18": ("exploration", "runtime monitoring on the real OS file system: independent flock probes + logical-clock ordering of waiting opens + strace syscall fault injection (thorough)",
          "Generated open/second-open/waiting-open/failing-open/close sequences on real temp files; an independent flock probe decides whether the path lock is held or free after every step; failing opens cover invalid options, damaged/truncated files, out-of-range meta roots and size errors; the thorough tier adds helper processes with pwrite/fsync/mmap/ftruncate/fstat/flock/openat failures injected by strace during initialisation.",
          "DESIGN.md 4 (C18)", "trusted: advisory flock semantics of the sandbox file system; strace injection may hit the Go runtime (then inconclusive)"),
+ "C05": ("exploration", "runtime monitoring: model-based differential execution of the queue through its public Writer/Reader/ACK API with unique event contents (+race detector slice)",
+         "Generated programs (boundary-size table, streamed writes, partial reads, flush timings, ACKs, reopen; page and buffer sizes) run against a sequential event-list model; every Next size and Read byte range is compared, end-of-queue must lie in the flushed bracket, final close/reopen/drain delivers every completed event.",
+         "DESIGN.md 5 (C05)", SIM),
+ "C12": ("exploration", "runtime monitoring: fill-to-error/drain cycles on small bounded simulated disks with the event model as oracle and a space bound evaluated on the allocator snapshot hook after every ACK",
+         "Producer/consumer histories pushing >=12x (quick) / 60x (thorough) the file size through bounded files; only space errors allowed, nothing lost or reordered, reading+ACK succeed on the full file, after every ACK held pages <= root + chain pages from the last ACKed event's start page to the tail + 1, pending chunks/flushes succeed after a drain.",
+         "DESIGN.md 5 (C12)", SIM),
+ "C17": ("exploration", "runtime monitoring: counter/callback oracle evaluated after every step of model-driven queue programs",
+         "After every step of generated producer/consumer/reopen programs Pending == Active == flushed - acked, Reader.Available == flushed(at Begin) - consumed, Flushed/ACKed callback totals equal the model's totals (bracketed by what explicit flushes and the reader prove), OnQueueInit after reopen, queue header page counter == pages held.",
+         "DESIGN.md 5 (C17)", SIM),
  "C03": ("exploration", "runtime monitoring: model-based differential execution on a simulated disk with controlled writer stalls (+race detector slice)",
          "Real txfile code is driven by PRNG-generated transaction programs on a simulated disk; a sequential page model is compared in a read transaction after every transaction end, on every in-transaction read and after reopen, while a gate stalls the background writer so that several transactions' page writes share one writer batch. Held-on-explored-executions assurance; right level because the property quantifies over histories and writer timings that cannot be enumerated.",
          "DESIGN.md 4 (C03)", SIM),
